@@ -47,6 +47,7 @@ type Unit struct {
 	houdini  *houdiniRun
 	noHoudini bool
 	inferred map[string][]string // loop → inferred invariant names (reported)
+	houdiniDead map[string]map[string]bool
 }
 
 type loopInfo struct {
@@ -1185,7 +1186,7 @@ func (st *State) strEq(a, b Term) Term {
 	i := Term{"i!q", SInt}
 	return And(Eq(StrLen(a), StrLen(b)),
 		Forall([]Term{i}, Implies(And(Le(IntLit(0), i), Lt(i, StrLen(a))),
-			Eq(Select(StrArr(a), Add(StrOff(a), i)), Select(StrArr(b), Add(StrOff(b), i))))))
+			Eq(Select(StrArr(a), Ix(StrOff(a), i)), Select(StrArr(b), Ix(StrOff(b), i))))))
 }
 
 func (st *State) litStr(t Term) (int, string, bool) {
@@ -1207,7 +1208,7 @@ func (st *State) litStr(t Term) (int, string, bool) {
 func (st *State) strEqLit(a Term, n int, lit string) Term {
 	cs := []Term{Eq(StrLen(a), IntLit(int64(n)))}
 	for i := 0; i < n; i++ {
-		cs = append(cs, Eq(Select(StrArr(a), Add(StrOff(a), IntLit(int64(i)))), IntLit(int64(lit[i]))))
+		cs = append(cs, Eq(Select(StrArr(a), Ix(StrOff(a), IntLit(int64(i)))), IntLit(int64(lit[i]))))
 	}
 	return And(cs...)
 }
@@ -1223,8 +1224,8 @@ func (st *State) concat(a, b Term) Term {
 	arr := e.fresh("cat", ArraySort(SInt, SInt))
 	i := Term{"i!q", SInt}
 	la, lb := StrLen(a), StrLen(b)
-	st.assume(Forall([]Term{i}, Implies(And(Le(IntLit(0), i), Lt(i, la)), Eq(Select(arr, i), Select(StrArr(a), Add(StrOff(a), i))))))
-	st.assume(Forall([]Term{i}, Implies(And(Le(IntLit(0), i), Lt(i, lb)), Eq(Select(arr, Add(la, i)), Select(StrArr(b), Add(StrOff(b), i))))))
+	st.assume(Forall([]Term{i}, Implies(And(Le(IntLit(0), i), Lt(i, la)), Eq(Select(arr, i), Select(StrArr(a), Ix(StrOff(a), i))))))
+	st.assume(Forall([]Term{i}, Implies(And(Le(IntLit(0), i), Lt(i, lb)), Eq(Select(arr, Ix(la, i)), Select(StrArr(b), Ix(StrOff(b), i))))))
 	return MkStr4(arr, IntLit(0), Add(la, lb), IntLit(1))
 }
 
@@ -1355,7 +1356,7 @@ func (st *State) indexAddr(x *ssa.IndexAddr) Value {
 	case *types.Slice:
 		st.check("index", txt, pos, And(Le(IntLit(0), idx.Tm), Lt(idx.Tm, SlLen(base.Tm))))
 		_ = e
-		return Value{T: x.Type(), Ptr: &Pointer{Kind: RElem, Ref: SlRef(base.Tm), Idx: Add(SlOff(base.Tm), idx.Tm), RootT: t.Elem(), SliceT: base.T}}
+		return Value{T: x.Type(), Ptr: &Pointer{Kind: RElem, Ref: SlRef(base.Tm), Idx: Ix(SlOff(base.Tm), idx.Tm), RootT: t.Elem(), SliceT: base.T}}
 	case *types.Pointer:
 		arr := types.Unalias(t.Elem()).Underlying().(*types.Array)
 		st.check("index", txt, pos, And(Le(IntLit(0), idx.Tm), Lt(idx.Tm, IntLit(arr.Len()))))
@@ -1378,7 +1379,7 @@ func (st *State) indexVal(x *ssa.Index) Value {
 	switch t := types.Unalias(base.T).Underlying().(type) {
 	case *types.Basic: // string
 		st.check("index", txt, pos, And(Le(IntLit(0), idx.Tm), Lt(idx.Tm, StrLen(base.Tm))))
-		r := Value{T: x.Type(), Tm: Select(StrArr(base.Tm), Add(StrOff(base.Tm), idx.Tm))}
+		r := Value{T: x.Type(), Tm: Select(StrArr(base.Tm), Ix(StrOff(base.Tm), idx.Tm))}
 		st.assumeTypeInv(r)
 		return r
 	case *types.Array:
